@@ -240,4 +240,12 @@ def appendInventory : List (String × String × String × String × String) :=
     ("resource.go", "(*EmbedHelper).EmbedAt", "e.refs", "field", "back"),
     ("resource.go", "(*ResourceManager).StoreDeferred", "rm.deferred", "field", "back") ]
 
+/-- the reviewed close order of the filter layers of a decoded stream (container.go): (function,
+position of the outermost layer's Close, direction of the loop over the layers below, which are
+stored innermost first).  Compared on every run with the fact re-extracted from the source
+(harness/conc_a_close.go). -/
+def closeOrder : List (String × String × String) :=
+  [ ("(*sourceAwareReader).Close", "inner-first", "lower-decreasing"),
+    ("DecodeStream.cleanup", "", "lower-decreasing") ]
+
 end PdfVerif.CONC
